@@ -58,7 +58,7 @@ def build_and_observe(root):
     return 'raise:' + type(e).__name__, None, None, None
   log = list(pool.CALL_LOG)
   p = H.Projector()
-  p.val(result)
+  p.rootval = p.val(result)
   order = []
   for inst in log:
     # an Inst is projected through the object that carries it
@@ -84,13 +84,27 @@ def check_heap(rec):
                          for i in range(1, len(hp) + 1))}
   def feat(clause, obs):
     return dict(shape, clause=clause, observed=obs)
+  if rec['fails']:
+    if out == 'ok':
+      return [(feat('unset-tagged-value-built', 'ok'),
+               'build succeeded although a reachable TaggedValue has no value')]
+    after, _ = H.project(root)
+    if after != before:
+      return [(feat('config-mutated', out), 'failed build changed the configuration')]
+    return []
   if out != 'ok':
     return [(feat('build-outcome', out), f'build failed: {out}')]
+  if rec['builtroot'] > 0:
+    if result != rec['builtroot']:
+      mism.append((feat('result-leaf', 'ok'), f'built {result!r}, spec leaf {rec["builtroot"]}'))
+    return mism
   if H.strip_tags(built) != rec['built']:
     mism.append((feat('result-graph', 'ok'),
                  f'built graph {json.dumps(built)} differs from spec {json.dumps(rec["built"])}'))
     return mism
   exp_buildables = [i + 1 for i, b in enumerate(rec['buildables']) if b]
+  inv = {b: i + 1 for i, b in enumerate(rec['bindex']) if b}
+  order = [inv.get(o, 0) for o in order]       # built numbering -> configuration numbering
   if sorted(order) != exp_buildables:
     mism.append((feat('exactly-once', 'ok'),
                  f'invocations {order}, expected each of {exp_buildables} exactly once'))
@@ -185,7 +199,7 @@ def record_random(rng, n, maxobj):
     out, built, order, _ = build_and_observe(root)
     recs.append({'tid': tid, 'heap': H.strip_tags(hp), 'out': out,
                  'built': H.strip_tags(built) if built is not None else [],
-                 'order': order or []})
+                 'builtroot': 0, 'order': order or []})
   return recs
 
 
@@ -233,7 +247,9 @@ def _temp_flatten(t):
 
 
 def _temp_unflatten(values, _):
-  return Temp([list(v) for v in values])
+  # keeps the built children themselves (allocating nothing of the temporaries' type, so
+  # that the temporaries' addresses are free again when the next node is flattened)
+  return Temp(tuple(values))
 
 
 def _temp_paths(t):
@@ -241,7 +257,8 @@ def _temp_paths(t):
 
 
 def temporaries_scenario():
-  """Nested node type with temporaries: a stale memo hit would corrupt rows."""
+  """Node types whose flatten creates temporaries: a stale memo hit on a recycled
+  id would give a later temporary the result of an earlier one."""
   try:
     daglish.register_node_traverser(Temp, flatten_fn=_temp_flatten,
                                     unflatten_fn=_temp_unflatten,
@@ -250,14 +267,48 @@ def temporaries_scenario():
     pass
   mism = []
   for nrows in (2, 4, 8, 16):
-    rows = [[10 * r + c for c in range(3)] for r in range(nrows)]
-    cfg = fdl.Config(H.f1, s1=Temp([[Temp(rows)], [Temp(rows)]]))
+    # (1) plain values, every temporary with different contents
+    rows_a = [[100 * r + c for c in range(3)] for r in range(nrows)]
+    rows_b = [[100 * r + c + 50 for c in range(3)] for r in range(nrows)]
+    cfg = fdl.Config(H.f1, s1=Temp([[Temp(rows_a)], [Temp(rows_b)]]))
     res = fdl.build(cfg)
     inner = pool.inst_of(res).args['s1']
-    got = [t.rows for row in inner.rows for t in row]
-    if got != [rows, rows]:
+    got = [[list(r) for r in t.rows] for row in inner.rows for t in row]
+    if got != [rows_a, rows_b]:
       mism.append(({'clause': 'temporaries', 'rows': nrows, 'observed': 'wrong-value'},
                    f'rows rebuilt as {got}'))
+    # (2) many nodes, each with its own temporaries holding distinct Buildables
+    groups = [Temp([[fdl.Config(H.g4, s1=1000 * g + 10 * r + c) for c in range(2)]
+                    for r in range(nrows)]) for g in range(8)]
+    root = fdl.Config(H.f1, s1=groups)
+    pool.CALL_LOG.clear()
+    res = fdl.build(root)
+    ncalls = len(pool.CALL_LOG) - 1
+    built = pool.inst_of(res).args['s1']
+    vals = [[[pool.inst_of(x).args['s1'] for x in row] for row in t.rows] for t in built]
+    exp = [[[1000 * g + 10 * r + c for c in range(2)] for r in range(nrows)] for g in range(8)]
+    if ncalls != 16 * nrows or vals != exp:
+      mism.append(({'clause': 'temporaries', 'rows': nrows, 'observed': 'buildables'},
+                   f'{ncalls} invocations for {16 * nrows} Buildables; values in place: {vals == exp}'))
+    # (3) the same Buildables reached through the temporaries of two nodes: one result each
+    cfgs = [[fdl.Config(H.g4, s1=10 * r + c) for c in range(2)] for r in range(nrows)]
+    root = fdl.Config(H.f1, s1=Temp(cfgs), s2=Temp(list(reversed(cfgs))))
+    pool.CALL_LOG.clear()
+    res = fdl.build(root)
+    ncalls = len(pool.CALL_LOG) - 1
+    args = pool.inst_of(res).args
+    vals1 = [[pool.inst_of(x).args['s1'] for x in row] for row in args['s1'].rows]
+    vals2 = [[pool.inst_of(x).args['s1'] for x in row] for row in args['s2'].rows]
+    exp1 = [[10 * r + c for c in range(2)] for r in range(nrows)]
+    if ncalls != 2 * nrows or vals1 != exp1 or vals2 != list(reversed(exp1)):
+      mism.append(({'clause': 'temporaries', 'rows': nrows, 'observed': 'shared-buildables'},
+                   f'{ncalls} invocations for {2 * nrows} Buildables; built {vals1} / {vals2}'))
+    else:
+      same = all(args['s1'].rows[r][c_] is args['s2'].rows[nrows - 1 - r][c_]
+                 for r in range(nrows) for c_ in range(2))
+      if not same:
+        mism.append(({'clause': 'temporaries', 'rows': nrows, 'observed': 'sharing-lost'},
+                     'the same Buildable reached through two temporaries gave two results'))
   return mism
 
 
@@ -282,30 +333,43 @@ def depth_scenario():
 def main():
   v = common.Verdict(PROP, 'model_checking')
   quick = common.tier() == 'quick'
-  gen = dict(MaxObjs=4, MaxItems=2, NLeaves=1, NKeys=2, NFns=1, NSlots=2,
-             KindSet={'config', 'list', 'tuple', 'dict'}, WithBuild=False, EmitOn=True)
-  inter = dict(MaxObjs=3, MaxItems=2, NLeaves=1, NKeys=1, NFns=1, NSlots=2,
-               KindSet={'config', 'list', 'dict'}, WithBuild=True, EmitOn=False)
+  base = dict(MaxItems=2, NLeaves=1, NFns=1, NSlots=2, TagChoices={0}, UnsetTagged=False)
+  gen = dict(base, MaxObjs=4, NKeys=2, KindSet={'config', 'list', 'tuple', 'dict'},
+             WithBuild=False, EmitOn=True)
+  # stand-alone TaggedValues inside containers (they build to their value)
+  gen2 = dict(base, MaxObjs=4, NKeys=1, KindSet={'config', 'list', 'dict', 'tagged'},
+              UnsetTagged=True, WithBuild=False, EmitOn=True)
+  inter = dict(base, MaxObjs=3, NKeys=1, KindSet={'config', 'list', 'dict', 'tagged'},
+               WithBuild=True, EmitOn=False)
   if not quick:
     gen = dict(gen, MaxObjs=5, KindSet={'config', 'list', 'dict', 'ntuple'}, NKeys=1)
+    gen2 = dict(gen2, KindSet={'config', 'list', 'dict', 'tuple', 'tagged'}, NKeys=2)
     inter = dict(inter, MaxObjs=4)
   invs = ['ExactlyOnce', 'DepsFirst', 'MirrorsConfig', 'Progress', 'EmitHeap']
   with common.scratch() as wd:
     r1 = common.run_tlc('MC_C02', common.cfg_text(inter, constraints=['Prune'], invariants=invs),
                         workdir=os.path.join(wd, 'inter'))
     common.require_tlc_ok(r1, 'MC_C02/interleavings')
-    disp = common.Dispatcher(work, chunk=400)
-    r2 = common.run_tlc('MC_C02', common.cfg_text(gen, constraints=['Prune'], invariants=invs),
-                        workdir=os.path.join(wd, 'gen'), on_json=disp)
-    common.require_tlc_ok(r2, 'MC_C02/generation')
     totals = {'lines': 0, 'nontrivial': 0}
-    for stats, mism, sample in disp.results():
-      for k in totals:
-        totals[k] += stats[k]
-      for f, case in mism:
-        v.mismatch(f, case)
-      if sample:
-        v.sample(sample)
+    r2 = None
+    for nm, g in (('gen', gen), ('gen-tagged', gen2)):
+      disp = common.Dispatcher(work, chunk=400)
+      r = common.run_tlc('MC_C02', common.cfg_text(g, constraints=['Prune'], invariants=invs),
+                         workdir=os.path.join(wd, nm), on_json=disp)
+      common.require_tlc_ok(r, 'MC_C02/' + nm)
+      for stats, mism, sample in disp.results():
+        for k in totals:
+          totals[k] += stats[k]
+        for f, case in mism:
+          v.mismatch(f, case)
+        if sample:
+          v.sample(sample)
+      if r2 is None:
+        r2 = r
+      else:
+        r2.distinct += r.distinct
+        r2.generated += r.generated
+        r2.lines += r.lines
     rng = random.Random(common.seed() * 15485863 + 2)
     recs = record_random(rng, 500 if quick else 5000, 9 if quick else 14)
     # binding demo: corrupt one record (swap the invocation order) -> must be rejected
